@@ -255,6 +255,57 @@ static void prog_arena(int nworkers) {
   vf_logf("],\"got\":%d}", got); vf_log_line_end();
 }
 
+/* ---- program "abvisit" (C12, second half): threads leave blocks behind; mi_abandoned_visit_blocks must report exactly them,
+   a visitor returning false stops the walk, and a later walk is complete again (needs MIMALLOC_VISIT_ABANDONED=1) */
+static void visit_abandoned(int stopat) {
+  ret_t r; memset(&r, 0, sizeof(r));
+  visit_t v; memset(&v, 0, sizeof(v)); v.first = 1; v.afirst = 1; v.stopat = stopat;
+  vlen = 0; alen = 0; bufcat(&vbuf, &vlen, &vcap, ""); bufcat(&abuf, &alen, &acap, "");
+  log_call_begin("visit_abandoned", 0, 0, 0, 0, 0, 0, "ok", 0, stopat); log_obs(-1, -1, 0); log_call_end();
+  r.res = mi_abandoned_visit_blocks(mi_subproc_main(), -1, true, visitor, &v);
+  vf_in_call = 0;
+  r.nvisited = v.count;
+  log_ret_begin("visit_abandoned", &r);
+  vf_logf(",\"blocks\":["); vf_log_raw(vbuf, vlen); vf_logf("],\"areas\":["); vf_log_raw(abuf, alen); vf_logf("]");
+  log_obs(-1, -1, 0); log_ret_end();
+}
+static void* leaver_main(void* arg) {
+  role_t* r = (role_t*)arg;
+  cur_t = r->t; cur_theap = r->heapid; vf_cur_thread = r->t;
+  vf_logf("{\"e\":\"tstart\",\"t\":%d,\"h\":%d}", r->t, r->heapid); vf_log_line_end();
+  vf_point();
+  int own[64], nown = 0;
+  int n = 4 + (int)vf_randn(20);
+  for (int i = 0; i < n; i++) {
+    static const size_t szs[] = {16, 100, 1000, 8000, 8192, 70000, 300000, 2u << 20, 20u << 20};
+    int ns_ = op_alloc_ex(vf_randn(3) ? A_malloc : A_zalloc, szs[vf_randn(9)] + vf_randn(64), 0, 0, 0, 0);
+    if (ns_ >= 0 && nown < 64) own[nown++] = ns_;
+    vf_point();
+  }
+  /* free some of the own blocks again (hole patterns), leave the rest behind */
+  for (int i = 0; i < nown; i++) if (vf_randn(3) == 0 && slots[own[i]].p) { op_free_slot(own[i], FR_free); vf_point(); }
+  vf_logf("{\"e\":\"tdone\",\"t\":%d}", r->t); vf_log_line_end();
+  vf_in_call = 1; mi_thread_done(); vf_in_call = 0;
+  return NULL;
+}
+static void prog_abvisit(int nthreads) {
+  max_fill = 16384;
+  /* blocks of the main thread itself must never be reported as abandoned */
+  for (int i = 0; i < 5; i++) op_alloc_ex(A_malloc, 100 + vf_randn(20000), 0, 0, 0, 0);
+  for (int k = 0; k < nthreads; k++) { role_t* r = &roles[k + 1]; memset(r, 0, sizeof(*r)); r->t = k + 1; r->heapid = next_heap_id++; vf_spawn(leaver_main, r); }
+  vf_sched_go();
+  vf_wait_all();
+  visit_abandoned(0);                                   /* exactly the blocks left behind */
+  visit_abandoned(1 + (int)vf_randn(6));                /* the visitor stops the walk */
+  visit_abandoned(0);                                   /* and a later walk is complete again */
+  /* free half of what was left behind (into the abandoned segments), collect, walk again */
+  int k = 0; for (int s = 0; s < MAXSLOTS; s++) if (slots[s].p && slots[s].heap != hps[0].id && (k++ % 2) == 0) op_free_slot(s, FR_free);
+  visit_abandoned(0);
+  for (int s = 0; s < MAXSLOTS; s++) if (slots[s].p) op_free_slot(s, FR_free);
+  do_collect(1);
+  visit_abandoned(0);
+}
+
 /* ---- one execution (in a forked child) */
 static int run_one(const char* out, const char* prog, uint64_t seed, int argc, char** argv) {
   vf_rng_state = seed * 0x9E3779B97F4A7C15ull + 777;
@@ -279,6 +330,7 @@ static int run_one(const char* out, const char* prog, uint64_t seed, int argc, c
   else if (!strcmp(prog, "page-delete")) prog_page(nremote, 10 + (int)vf_randn(8), 1, 1);
   else if (!strcmp(prog, "page-collect")) prog_page(nremote, 12, 2, 1);
   else if (!strcmp(prog, "pc")) prog_pc(1 + (int)vf_randn(2), 2400, blk_lo, blk_hi);
+  else if (!strcmp(prog, "abvisit")) prog_abvisit(2 + (int)vf_randn(3));
   else if (!strcmp(prog, "arena")) prog_arena(2 + (int)vf_randn(2));
   else if (!strcmp(prog, "exit")) prog_exit(2 + (int)vf_randn(2), 14 + (int)vf_randn(10), blk_lo, blk_hi);
   else { fprintf(stderr, "unknown program %s\n", prog); return 2; }
